@@ -63,6 +63,7 @@ def check(ctx) -> None:
     r66(ctx)
     r67(ctx, cg)
     r68(ctx)
+    r69(ctx)
     ctx.extra_coverage['call_graph'] = {
         'functions': len(cg.funcs), 'call_sites_resolved': cg.resolved,
         'call_sites_unresolved': cg.unresolved,
@@ -560,6 +561,68 @@ def r65(ctx) -> None:
                                           for a in apps)
     R.check(ok, g, g.node, 'List.parse: list_limit test precedes append',
             'list items are appended without a preceding list_limit test')
+    # sequence-set expansion: every range handed out ends at most at the
+    # mailbox's max value ("1:4294967295" must not become 4e9 integers)
+    ss = ctx.proj.cls('pymap/parsing/specials/sequenceset.py', 'SequenceSet')
+    h = ss.own_method('_get_range')
+    if h is None or 'max_value' not in h.params():
+        raise AnchorError('SequenceSet._get_range(elem, max_value) vanished')
+    hcfg = cfg_of(h)
+
+    def bounded(e, node, depth=0) -> bool:
+        """e <= max_value whenever control is at node."""
+        if depth > 4:
+            return False
+        if is_name(e, 'max_value'):
+            return True
+        if isinstance(e, ast.Call) and call_name(e) == 'min' and \
+                not e.keywords and any(bounded(a, node, depth + 1)
+                                       for a in e.args):
+            return True
+        if isinstance(e, ast.Call) and call_name(e) == 'max' and \
+                not e.keywords and e.args and all(
+                    bounded(a, node, depth + 1) for a in e.args):
+            return True
+        if isinstance(e, ast.Name):
+            # guarded: control-dependent on `e <= max_value`
+            for t in hcfg.nodes:
+                if t.kind == 'test' and isinstance(t.stmt.test, ast.Compare) \
+                        and len(t.stmt.test.ops) == 1 and \
+                        txt(t.stmt.test.left) == e.id and \
+                        isinstance(t.stmt.test.ops[0], (ast.LtE, ast.Lt)) \
+                        and is_name(t.stmt.test.comparators[0], 'max_value') \
+                        and hcfg.controlled_by(node, t, 't'):
+                    return True
+            defs = [(st, v) for st, v in local_assigns(h, e.id)
+                    if v is not None]
+            # tuple unpacking etc. (value None) makes the name unbounded
+            if any(v is None for _, v in local_assigns(h, e.id)):
+                return False
+            return bool(defs) and all(
+                bounded(v, hcfg.nodes_of(st)[0] if hcfg.nodes_of(st)
+                        else node, depth + 1) for st, v in defs)
+        return False
+    nr = 0
+    for n in hcfg.stmt_nodes():
+        if not isinstance(n.stmt, ast.Return) or n.stmt.value is None:
+            continue
+        v = n.stmt.value
+        if not (isinstance(v, ast.Call) and call_name(v) == 'range'):
+            continue
+        nr += 1
+        stop = v.args[1] if len(v.args) >= 2 else v.args[0]
+        inner = stop.left if (isinstance(stop, ast.BinOp) and isinstance(
+            stop.op, ast.Add) and const_value(stop.right) == (True, 1)) \
+            else None
+        R.check(inner is not None and bounded(inner, n), h, n.stmt,
+                f'_get_range: `{txt(v)}` ends at most at max_value',
+                f'the range `{txt(v)}` is not clamped to max_value on '
+                f'this path: a sequence set like 1:4294967295 (or "2:1" '
+                f'written backwards) is expanded into as many integers as '
+                f'the client names — FETCH/SEARCH/STORE with it allocates '
+                f'gigabytes or runs for minutes instead of answering')
+    if nr < 3:
+        raise AnchorError(f'_get_range: only {nr} range returns recognised')
 
 
 # ----------------------------------------------------------------------
@@ -829,3 +892,103 @@ def r68(ctx) -> None:
          f'{n} site(s) where self and an alias parameter are locked '
          f'together')
     R.minimum = 1
+
+
+# ----------------------------------------------------------------------
+def r69(ctx) -> None:
+    R = ctx.rule('R6.9', 'a continuation request (ParsingInterrupt) is raised '
+                 'only where the front end handles it', 4)
+    # 1. every expect() (the only raiser of ParsingInterrupt) is controlled
+    #    by params.allow_continuations
+    n_exp = 0
+    for f in ctx.proj.all_funcs('pymap/parsing/'):
+        if f.rel.endswith('parsing/state.py'):
+            continue
+        cs = [c for c in calls_in(f.node, 'expect')]
+        if not cs:
+            continue
+        cfg = cfg_of(f)
+        for c in cs:
+            n_exp += 1
+            ok = False
+            for n in cfg.node_containing(c):
+                for t in cfg.nodes:
+                    if t.kind == 'test' and guard_atoms(t.stmt.test) == [
+                            ('params.allow_continuations', True)] and \
+                            cfg.controlled_by(n, t, 't'):
+                        ok = True
+            R.check(ok, f, c, f'{f.qualname}: expect() only under '
+                    f'params.allow_continuations',
+                    'a continuation is requested (ParsingInterrupt raised) '
+                    'without testing params.allow_continuations: front ends '
+                    'that cannot answer it (ManageSieve) crash on "{5}"')
+    if not n_exp:
+        raise AnchorError('no expect() call found in pymap/parsing')
+    # 2. Params.copy keeps an explicit falsy override
+    P = ctx.proj.cls('pymap/parsing/__init__.py', 'Params')
+    sin = P.own_method('_set_if_none')
+    cp = P.own_method('copy')
+    if cp is None:
+        raise AnchorError('Params.copy vanished')
+    holders = [sin] if sin is not None else [cp]
+    for f in holders:
+        bad = []
+        for t in walk_local(f.node):
+            if isinstance(t, ast.BoolOp) and isinstance(t.op, ast.Or) and \
+                    any('getattr' in txt(v) or txt(v).startswith('self.')
+                        for v in t.values[1:]):
+                bad.append(t.lineno)
+            test = t.test if isinstance(t, (ast.If, ast.IfExp)) else None
+            if test is not None:
+                # a bare truth test of a parameter (guard_atoms folds
+                # `x is not None` and `x` together, so look at the syntax)
+                for a in ast.walk(test):
+                    if isinstance(a, ast.Compare):
+                        break
+                else:
+                    if any(isinstance(a, ast.Name) and a.id in f.params()
+                           and a.id != 'self' for a in ast.walk(test)):
+                        bad.append(t.lineno)
+        R.check(not bad, f, f.node,
+                f'{f.qualname}: an override is taken whenever it is not None',
+                f'line(s) {bad}: the override is tested for truth, not for '
+                f'`is not None`, so copy(allow_continuations=False) (or '
+                f'uid=False) silently keeps the old True: ManageSieve then '
+                f'parses "{{5}}" as a synchronizing literal and the '
+                f'ParsingInterrupt escapes its command loop (connection '
+                f'dies instead of answering NO)')
+    # 3. the sieve front end switches continuations off, with a constant
+    conn = ctx.proj.cls('pymap/sieve/manage/__init__.py',
+                        'ManageSieveConnection')
+    found = False
+    for fs in conn.methods.values():
+        for f in fs:
+            for s_ in walk_local(f.node):
+                if isinstance(s_, ast.Assign) and any(
+                        txt(t) == 'self.params' for t in s_.targets):
+                    found = True
+                    v = s_.value
+                    kw = {k.arg: k.value for k in v.keywords} \
+                        if isinstance(v, ast.Call) else {}
+                    R.check(const_value(kw.get('allow_continuations'))
+                            == (True, False), f, s_,
+                            'ManageSieve parses with '
+                            'allow_continuations=False',
+                            'the ManageSieve connection parses with '
+                            'continuations allowed, but its command loop has '
+                            'no handler for ParsingInterrupt')
+    if not found:
+        raise AnchorError('ManageSieveConnection.params assignment vanished')
+    # 4. ... and every parse in the sieve front end uses those params
+    n_use = 0
+    for fs in conn.methods.values():
+        for f in fs:
+            for c in calls_in(f.node, 'parse'):
+                if len(c.args) >= 2:
+                    n_use += 1
+                    R.check(txt(c.args[1]) == 'self.params', f, c,
+                            f'{f.qualname}: parse(..., self.params)',
+                            f'a sieve parser is called with {txt(c.args[1])} '
+                            f'instead of the connection\'s params')
+    if not n_use:
+        raise AnchorError('no parse() call in ManageSieveConnection')
